@@ -262,6 +262,18 @@ func (in *Interp) setCell(st *State, o *Obj, path string, v Val) {
 	m[path] = v
 }
 
+// setCellDeep stores v at path without a store event, splitting aggregate
+// values into their leaf cells (the layout loadPath reads).
+func (in *Interp) setCellDeep(st *State, o *Obj, path string, t types.Type, v Val) {
+	if sv, ok := v.(*StructV); ok && t != nil && isAggregate(t) {
+		for i, f := range sv.Fields {
+			in.setCellDeep(st, o, joinPath(path, i), compType(t, i), f)
+		}
+		return
+	}
+	in.setCell(st, o, path, v)
+}
+
 func (in *Interp) store(st *State, p *Ptr, v Val) {
 	if p.Dyn != nil {
 		in.event(Event{Kind: "dynstore", Obj: p.Obj, Path: p.Path, Idx: p.Dyn, Val: v})
